@@ -7,6 +7,17 @@ then stores it under /verif/seeded/<name>/ (patch.diff, demo.rs, meta.json), app
 checks (default: the check of the property itself) in the quick tier, and reverts /repo (git checkout -- .)."""
 import json, os, subprocess, sys, time, shutil
 
+def _save_evidence():
+    import shutil, os
+    shutil.rmtree("/verif/target/tmp/evidence.bak", ignore_errors=True); os.makedirs("/verif/target/tmp", exist_ok=True)
+    shutil.copytree("/verif/evidence", "/verif/target/tmp/evidence.bak")
+def _restore_evidence():
+    # runs against a patched /repo must not leave their evidence behind: evidence files describe the unchanged tree only
+    import shutil, os
+    if os.path.isdir("/verif/target/tmp/evidence.bak"):
+        shutil.rmtree("/verif/evidence", ignore_errors=True); shutil.copytree("/verif/target/tmp/evidence.bak", "/verif/evidence")
+import atexit; _save_evidence(); atexit.register(_restore_evidence)
+
 def sh(cmd, cwd=None, timeout=3600):
     r = subprocess.run(cmd, shell=True, capture_output=True, text=True, cwd=cwd, timeout=timeout)
     return r.returncode, r.stdout + r.stderr
